@@ -34,8 +34,11 @@ def directed(rng: random.Random, tier: str):
             hs.round([], [], 30)
             out.append(hs)
     # non-ascii names in both name-carrying messages
-    for name in (b"\xff", b"caf\xc3\xa9", b"\x80" * 31, bytes(range(1, 33))):
-        hs = C.History(loglevel=60, tag="name-bytes")
+    # names: non-ascii bytes, and perfectly legal ascii that looks like console markup / format directives
+    for name in (b"\xff", b"caf\xc3\xa9", b"\x80" * 31, bytes(range(1, 33)), b"reader[/dev/ttyS0]", b"[/]", b"[bold]x",
+                 b"[red]alert[/red]", b"%s%d%(name)s", b"{0}{name}{", b"a\\[b]"):
+      for lvl in (60, 20, 10):
+        hs = C.History(loglevel=lvl, tag="name-bytes")
         hs.round([], [], 0, accept=True)
         hs.round([], [], 0, accept=True)
         hs.round([(1, hs.connect_v2(mod_id=10, name=name))], [1, 2], 0)
